@@ -114,6 +114,18 @@ def run(ctx, rep):
     rep.floor('zeroing requests created under a per-cluster guard', nz, 1)
     # C05.2
     P = Program(f)
+    # C05.6: what a later allocation hands out does not overlap clusters that hold synced data of someone else
+    from ..critsec import run_contiguity
+    rep.rule('C05.6', 'a run the allocator returns as contiguous is built from adjacent pieces only (a later multi-cluster write does not '
+                      'map, zero and overwrite clusters lying between two pieces)')
+    rc = run_contiguity(f, P)
+    rep.floor('increments of a returned run count inside a loop', len(rc), 1)
+    for (fn, where, ok, detail) in rc:
+        rep.ob('C05.6', '%s increment at %s' % (fn, where), ok, detail)
+        if not ok:
+            rep.violation('C05.6', 'C05.6:%s' % fn, where,
+                          '%s: %s: the clusters between two pieces hold synced data of other guest clusters and are zeroed and '
+                          'overwritten by the write that received the run' % (fn, detail))
     impls = [im for im in f.impls if im.get('trait') == 'ops::Qcow2IoOps']
     rep.floor('Qcow2IoOps implementations', len(impls), 3)
     for im in impls:
